@@ -93,6 +93,21 @@ theorem stepCmd_sim (sc : Scripts) {w : World} (hr : Rest w) (hs : Sim false w) 
     have hs1 : Sim false { w with giver := liveGiver w (some g) } := SimJ.congr (w := w) hs rfl rfl rfl rfl rfl
     exact SimJ.congr (w := applyOp { w with giver := liveGiver w (some g) } self op) (applyOp_sim hr1 hs1 self op)
       rfl rfl rfl rfl rfl
+  | setUnique n =>
+    show Sim false (if n > w.unique then { w with unique := n } else w)
+    split
+    · rename_i hn
+      have hle : ((N * (w.unique + 1) : Nat) : Int) ≤ ((N * (n + 1) : Nat) : Int) := by
+        have : N * (w.unique + 1) ≤ N * (n + 1) := Nat.mul_le_mul_left _ (by omega)
+        omega
+      refine ⟨hs.bad, hs.dead, hs.handles, hs.inTick, ?_, ?_, hs.pendSorted, fun c hc => hs.wheelPend c (hc.congr rfl), ?_⟩
+      · intro h hh; have := hs.allLt h hh; show h < ((N * (n + 1) : Nat) : Int); omega
+      · intro p hp; have := hs.pendLt p hp; show p.handle < ((N * (n + 1) : Nat) : Int); omega
+      · intro p hp
+        rcases hs.pendWheel p hp with ⟨c, hc1, hc2⟩ | hx
+        · exact Or.inl ⟨c, hc1.congr rfl, hc2⟩
+        · exact Or.inr hx
+    · exact hs
 
 theorem runCmds_sim (sc : Scripts) {w : World} (hr : Rest w) (hs : Sim false w) (cs : List Cmd) :
     Sim false (runCmds sc w cs) := by
@@ -253,6 +268,57 @@ theorem C10_handles_Full_false : ¬ C10_handles_Full := by
 /-- and `2^32 / N` serials later a handle repeats -/
 theorem handleC_collision_witness : handleC 5 0 = handleC 5 (2 ^ 32 / N) := by decide
 
+/-! ### the history with `int` handles (`eventsC`): partial theorem, refuted full statement -/
+
+/-- **explicit decidable side condition**: every handle returned by call_out() in this history survives the
+    conversion to a C `int` -/
+def handlesFit (evs : List Ev) : Bool :=
+  evs.all (fun e => match e with
+    | .co _ _ _ _ _ h _ _ => decide (Gen.C10.trunc32 h = h)
+    | _ => true)
+
+theorem cutAtOverflow_id : ∀ {evs : List Ev}, handlesFit evs = true → cutAtOverflow evs = evs
+  | [], _ => rfl
+  | e :: es, h => by
+    have h' : handlesFit es = true := by
+      unfold handlesFit at h ⊢
+      simp only [List.all_cons, Bool.and_eq_true] at h
+      exact h.2
+    have ih := cutAtOverflow_id h'
+    cases e with
+    | co t o fn d tag hd fp tp =>
+      have h1 : Gen.C10.trunc32 hd = hd := by
+        unfold handlesFit at h
+        simp only [List.all_cons, Bool.and_eq_true, decide_eq_true_eq] at h
+        exact h.1
+      simp only [cutAtOverflow, h1, if_true, ih]
+    | _ => simp only [cutAtOverflow, ih]
+
+/-- **`model_satisfies_spec_int` (the `_partial` statement)**: on every history whose handles fit an `int`, the
+    history as the C code with `int` handles produces it (`eventsC`, what `nvdrive C10 model` prints) is accepted
+    by the oracle.  Below 2^31 / N - 1 call_outs (`handleC_exact`) the side condition holds. -/
+theorem model_satisfies_spec_int (sc : Scripts) (cmds : List Cmd)
+    (h : handlesFit (events (runCmds sc World.init cmds)) = true) :
+    judgeEv (eventsC (runCmds sc World.init cmds)) = [] := by
+  unfold eventsC
+  rw [cutAtOverflow_id h]
+  exact model_satisfies_spec sc cmds
+
+/-- the statement without the side condition -/
+def C10_int_Full : Prop := ∀ (sc : Scripts) (cmds : List Cmd), judgeEv (eventsC (runCmds sc World.init cmds)) = []
+
+/-- the witness history (replayed on the real driver by the open known finding C10-handle-overflow): the serial is
+    advanced to two below the end of the range, the first call_out still gets a positive `int`, the second overflows -/
+def ovfCmds : List Cmd :=
+  [.setUnique (2 ^ 31 / N - 2), .op 1 (.co 0 5 "a" false), .op 1 (.co 0 5 "b" false), .adv 5, .sweep]
+
+theorem ovf_witness : judgeEv (eventsC (runCmds (fun _ _ => []) World.init ovfCmds)) ≠ [] := by decide
+
+/-- the first call_out of the witness is still fine (non-vacuity of the side condition right below the bound) -/
+example : handlesFit (events (runCmds (fun _ _ => []) World.init (ovfCmds.take 2))) = true := by decide
+
+theorem C10_int_Full_false : ¬ C10_int_Full := fun h => ovf_witness (h _ _)
+
 /-- the efuns return `(int) time_left (...)`; the model applies the same conversion (`efunResult`, generated) and the
     oracle expects a C int (`toCInt`).  **Explicit side condition** under which the conversion is the identity, i.e.
     the answer is the true time left: the entry's second lies within 2^31 seconds of `current_time`
@@ -287,7 +353,7 @@ example : (events (runCmds exScripts World.init exCmds)).filter (fun e => match 
     = [.fire 3 1 0 "a" (some 3), .fire 43 1 1 "b" (some 3)] := by decide
 
 /-- `usage_exact` on the example: one chunk allocated, one call_out still pending -/
-example : (runCmds exScripts World.init (exCmds.take 9)).numCall = 20 ∧
+example : (runCmds exScripts World.init (exCmds.take 9)).numCall = Gen.C10.chunkSize ∧
     wheelSize (runCmds exScripts World.init (exCmds.take 9)) = 1 := by decide
 
 /-- the side condition of `handles_fit_int` is satisfiable on the non-trivial example history -/
